@@ -166,6 +166,16 @@ def run(P: Program, rep: Report):
                        "endswith / len / constant slices / digit tests / formatting, which are uniform on the explored class strings")
     for f, param in ((strip_f, "value"), (encl_f, "value")):
         obs = observers(f.node, param)
+        # a value handed to another function of the module is inspected there: follow it (one level)
+        for n in ast.walk(f.node):
+            if isinstance(n, ast.Call) and any(isinstance(a, ast.Name) and a.id == param for a in n.args):
+                tg, how = P.call_targets(f, n)
+                for t in tg:
+                    pos = [i for i, a in enumerate(n.args) if isinstance(a, ast.Name) and a.id == param][0]
+                    ps = t.params()
+                    ps = ps[1:] if ps and ps[0] in ("self", "cls") else ps
+                    if pos < len(ps):
+                        obs = [o for o in obs if not o.startswith("call:") and o != "Call"] + observers(t.node, ps[pos])
         bad = sorted(set(obs) - ALLOWED_OBSERVERS)
         rep.check(not bad, "C10.R0", f"observers:{f.name}", f.loc,
                   f"{f.name} inspects the value through {bad}: the class-string abstraction does not cover it", note=f"observers {sorted(set(obs))}")
